@@ -284,7 +284,14 @@ impl Builder {
                 let z = self.rng.ps(&["0", "0", "0", "1", "0x0", "00"]).to_string();
                 let zl = if z.starts_with("0x") { self.ex(E::HexNum(z)) } else { self.num(&z) };
                 let az = self.cast(self.rng.ps(&["address", "address", "address", "payable", "uint160"]), zl);
-                let other = self.small_expr(d);
+                // the other operand: anything; now and then itself an address conversion (of something that is not zero)
+                let other = if self.rng.chance(1, 5) {
+                    let n = self.name_in_scope();
+                    let v = self.var(&n);
+                    self.cast(self.rng.ps(&["address", "payable", "address"]), v)
+                } else {
+                    self.small_expr(d)
+                };
                 let op = *self.rng.pick(&[BinOp::Eq, BinOp::Ne, BinOp::Eq, BinOp::Ne, BinOp::Lt, BinOp::Assign]);
                 if self.rng.chance(1, 2) {
                     self.bin(op, other, az)
@@ -970,7 +977,7 @@ impl Builder {
                     // common names, deliberately repeated across contracts (and as overloads)
                     self.rng.ps(&["destroy", "kill", "withdraw", "initialize", "update", "_update", "sweep"]).to_string()
                 } else if self.rng.chance(1, 4) {
-                    self.fresh("_fn")
+                    if self.rng.chance(1, 4) { self.fresh("__fn") } else { self.fresh("_fn") }
                 } else {
                     self.fresh("fn")
                 };
@@ -1142,7 +1149,13 @@ impl Builder {
         let underscore = self.rng.chance(1, 3);
         // `$` is a letter of identifiers: `_$slot`, `$slot`
         let name = match (underscore, self.rng.chance(1, 8)) {
-            (true, false) => self.fresh("_sv"),
+            (true, false) => {
+                if self.rng.chance(1, 5) {
+                    self.fresh("__sv")
+                } else {
+                    self.fresh("_sv")
+                }
+            }
             (false, false) => self.fresh("sv"),
             (true, true) => self.fresh("_$sv"),
             (false, true) => self.fresh("$sv"),
